@@ -19,6 +19,7 @@ def commands : List (String × (String → String)) := [
   ("legal", legal),
   ("nest", nest),
   ("tables", tables),
+  ("validate", validate),
   ("json", json),
   ("promela", promela),
   ("lua", lua)
